@@ -7,7 +7,8 @@
    DeleteRemoves, HeaderClean, OriginalUntouched); the extraction family (member classes alone and between
    valid members, limits 180 / 4096 / 8192 below-at-above): ExtractValid; headers that state a key more than once
    (every shape of <= 5 members over three keys, dropped members mixed in, near the limits): DupBand (what the repeated
-   key itself yields is open, every other valid member is kept once, in order).  spec/Composite.tla: every ordered
+   key itself yields is open, every other valid member is kept once, in order), then Set / Delete of every key on the
+   extracted baggage (XOpsRemove: no entry with the key survives) and Inject + Extract of the result.  spec/Composite.tla: every ordered
    subset of {tc, bag, b3, b3m, jg} x every carrier (each wire format independently present) / context shape:
    LastValidWins, CrossFormatApplied, EveryPartWrote, ...
 2. spec -> code: every generated behaviour is replayed on the real Baggage / BaggagePropagator /
@@ -75,7 +76,7 @@ def baggage_runs(ctx):
     pool, f3 = None, None
     pool = cf.ThreadPoolExecutor(max_workers=2)
     # headers with a repeated key (independent of the other runs too)
-    cd = _cfg(ctx, "dup.cfg", True, "dup", 0, True, 1, "ExtractValid DupBand DupWithinLimit EmitAll")
+    cd = _cfg(ctx, "dup.cfg", True, "dup", 2, True, 1, "ExtractValid DupBand DupWithinLimit XOpsRemove EmitDup", P)
     fd = pool.submit(tlc.tlc, "Baggage", cd, rundir=ctx.rundir.path, workers=1, timeout_s=600, tag="dup")
     if thorough:
         c3 = _cfg(ctx, "ops3.cfg", False, "ops", 3, False, 1, INVS, P)
@@ -140,7 +141,23 @@ def baggage_runs(ctx):
     b = _uniq(r, "dup")
     counts["dup"] = len(b)
     behs += b
-    recs = [x["steps"][0] for x in b]
+    # Set / Delete on the extracted baggage (then Inject + Extract when no repeated key is left)
+    hdrs = {}
+    xstat = {"xdel": 0, "xset": 0, "rt": 0, "xdel_of_repeated_key": 0, "xset_of_repeated_key": 0, "op_with_other_key_still_repeated": 0}
+    for x in b:
+        st = x["steps"]
+        hdrs[json.dumps(st[0]["hdr"])] = st[0]
+        for y in st[1:]:
+            xstat[y["op"]] += 1
+            if y["op"] in ("xdel", "xset"):
+                if any(d["k"] == y["k"] for d in st[0]["exp"]["d"]):
+                    xstat[y["op"] + "_of_repeated_key"] += 1
+                if y["exp"]["d"]:
+                    xstat["op_with_other_key_still_repeated"] += 1
+    ctx.extra["operations_on_extracted_baggage"] = xstat
+    if not all(xstat.values()):
+        raise Broken("vacuity: operations on extracted baggage lack a class: %s" % xstat)
+    recs = list(hdrs.values())
     # shape of the family, measured: a repeated key / two of them / one stated >= 3 times / followed by >= 2 valid members
     # with keys of their own / next to a dropped member / in a header of >= 179 members
     nmem = lambda x: 1 + sum(1 for t in x["hdr"] if t["t"] == "raw" and t["c"] == "cm")
@@ -154,7 +171,7 @@ def baggage_runs(ctx):
         "over_long_header_alternative": sum(1 for x in recs if x["alt"]),
     }
     ctx.extra["repeated_key_family"] = dupstat
-    if len(b) < 600 or not all(dupstat.values()):
+    if len(recs) < 600 or not all(dupstat.values()):
         raise Broken("vacuity: repeated-key family lacks a class: %s" % dupstat)
     c = _cfg(ctx, "mix.cfg", True, "mix", 5, True, 1, "ExtractValid DupBand EmitMix")
     r = tlc.tlc("Baggage", c, rundir=ctx.rundir.path, workers=1, timeout_s=600,
